@@ -1,8 +1,10 @@
 #!/bin/sh
-# runall.sh [seed] [tier] : run every registered check once; print one line per check.
+# runall.sh [seed] [tier] [ids...] : run every registered check (or the listed ones) once; print one line per check.
 cd "$(dirname "$0")/.."
 SEED=${1:-1}; TIER=${2:-quick}
-for id in C01 C02 C03 C04 C05 C06 C07 C08 C09 C10 C11 C12 C13 C14 C15 C16 C17 C18 C19 C20; do
+[ $# -ge 2 ] && shift 2 || shift $#
+IDS=${*:-C01 C02 C03 C04 C05 C06 C07 C08 C09 C10 C11 C12 C13 C14 C15 C16 C17 C18 C19 C20}
+for id in $IDS; do
   s=$(date +%s)
   out=$(VERIF_SEED=$SEED /venv/bin/python run.py $id $TIER 2>&1); rc=$?
   e=$(date +%s)
